@@ -53,7 +53,19 @@ def check_eval(w, rep, tier):
                 ref = bernstein(P, t.s(), T.s(), n)
                 ok, ev = guarded(w, rep, "C18.eval", "degree %d eval" % n, lambda: w.call(bz, "eval", t))
                 if ok:
-                    verdict(rep, "C18.eval", "degree %d (dim %d): eval(t) = sum C(n,i) b^i (1-b)^(n-i) P_i, b = t/T" % (n, m), ev, ref, (), W, "De Casteljau evaluation is not the Bernstein polynomial")
+                    inst_ = "degree %d (dim %d): eval(t) = sum C(n,i) b^i (1-b)^(n-i) P_i, b = t/T" % (n, m)
+                    cases_ = minmax_cases(ev) if any(a.kind in ("fmin", "fmax") for p_ in ev.flat() for a in all_atoms(p_)) else None
+                    bad_ = None
+                    for lab_, ev_c in (cases_ or []):
+                        v_, d_ = decide_mat(ev_c, ref)
+                        if v_ == DIFFERENT:
+                            bad_ = (lab_, d_)
+                            break
+                    if bad_:
+                        # a clamp of the time argument: in the clamped case (t free, so the case is not empty) the value is not the polynomial
+                        rep.fail("C18.eval", inst_, "De Casteljau evaluation is not the Bernstein polynomial when %s: %s" % bad_, where=W)
+                    else:
+                        verdict(rep, "C18.eval", inst_, ev, ref, (), W, "De Casteljau evaluation is not the Bernstein polynomial")
                 for k in range(1, min(n, 4) + 1):
                     ok, dk = guarded(w, rep, "C18.deriv", "degree %d deriv %d" % (n, k), lambda: w.call(w.call(bz, "deriv", k), "eval", t))
                     if ok:
